@@ -33,20 +33,20 @@ func ssoChecks(rec *sim.Response, now time.Time, cfgIssuer string) map[string]bo
 	}
 	if rec.Issuer == nil {
 		V["missing:Issuer"] = true
-	} else if cfgIssuer != "" && *rec.Issuer != cfgIssuer {
+	} else if cfgIssuer != "" && sim.StripMarks(*rec.Issuer) != cfgIssuer {
 		V["invalid:Issuer"] = true
 	}
-	if !rec.HasStatus {
+	if hasStatus, code := rec.EffectiveStatus(); !hasStatus {
 		V["missing:Status"] = true
-	} else if len(rec.StatusCodes) == 0 {
+	} else if code == nil {
 		V["missing:StatusCode"] = true
-	} else if rec.StatusCodes[0] != sim.StatusSuccess {
+	} else if *code != sim.StatusSuccess {
 		V["invalid:StatusCode"] = true
 	}
 	for _, a := range rec.Assertions {
 		if a.Issuer == nil {
 			V["missing:Issuer"] = true
-		} else if cfgIssuer != "" && *a.Issuer != cfgIssuer {
+		} else if cfgIssuer != "" && sim.StripMarks(*a.Issuer) != cfgIssuer {
 			V["invalid:Issuer"] = true
 		}
 		if !a.HasSubject {
@@ -82,6 +82,7 @@ func ssoChecks(rec *sim.Response, now time.Time, cfgIssuer string) map[string]bo
 var c03Faults = []string{"version-1.1", "version-empty", "version-absent", "dest-other", "dest-nearmiss", "dest-empty", "dest-absent",
 	"issuer-absent", "issuer-other", "issuer-empty", "a-issuer-absent", "a-issuer-other", "a-issuer-empty",
 	"status-absent", "statuscode-absent", "status-requester", "status-second-level", "zero-assertions",
+	"issuer-suffix-after-pi", "a-issuer-suffix-after-pi", "second-status-bad",
 	"subject-absent", "conf-absent", "confdata-absent", "method-hok", "method-sv", "method-empty", "method-absent",
 	"recipient-absent", "recipient-other", "recipient-nearmiss", "recipient-empty", "nooa-absent", "nooa-malformed", "nooa-past", "nooa-empty"}
 
@@ -122,6 +123,11 @@ func injectSSOFault(r *rand.Rand, rec *sim.Response, now time.Time, f string) st
 		rec.Issuer = sim.S("https://evil-idp.example.test/")
 	case "issuer-empty":
 		rec.Issuer = sim.S("")
+	case "issuer-suffix-after-pi":
+		// the configured issuer, a processing instruction, then more text: the element's string value is the concatenation
+		rec.Issuer = sim.S(IdPIss + sim.PIMark + ".rogue.example")
+	case "second-status-bad":
+		rec.ExtraStatus = append(rec.ExtraStatus, []string{"urn:oasis:names:tc:SAML:2.0:status:Responder"})
 	case "status-absent":
 		rec.HasStatus = false
 	case "statuscode-absent":
@@ -144,6 +150,8 @@ func injectSSOFault(r *rand.Rand, rec *sim.Response, now time.Time, f string) st
 			a.Issuer = sim.S("https://evil-idp.example.test/")
 		case "a-issuer-empty":
 			a.Issuer = sim.S("")
+		case "a-issuer-suffix-after-pi":
+			a.Issuer = sim.S(IdPIss + sim.PIMark + ".rogue.example")
 		case "subject-absent":
 			a.HasSubject = false
 		case "conf-absent":
@@ -369,18 +377,18 @@ func runC03(c *mon.Ctx) {
 func recToLib(rec *sim.Response) *types.Response {
 	out := &types.Response{ID: strOr(rec.ID), InResponseTo: strOr(rec.InResponseTo), Destination: strOr(rec.Destination), Version: strOr(rec.Version)}
 	if rec.Issuer != nil {
-		out.Issuer = &types.Issuer{Value: *rec.Issuer}
+		out.Issuer = &types.Issuer{Value: sim.StripMarks(*rec.Issuer)}
 	}
-	if rec.HasStatus {
+	if has, code := rec.EffectiveStatus(); has {
 		out.Status = &types.Status{}
-		if len(rec.StatusCodes) > 0 {
-			out.Status.StatusCode = &types.StatusCode{Value: rec.StatusCodes[0]}
+		if code != nil {
+			out.Status.StatusCode = &types.StatusCode{Value: *code}
 		}
 	}
 	for _, a := range rec.Assertions {
 		la := types.Assertion{ID: strOr(a.ID), Version: strOr(a.Version)}
 		if a.Issuer != nil {
-			la.Issuer = &types.Issuer{Value: *a.Issuer}
+			la.Issuer = &types.Issuer{Value: sim.StripMarks(*a.Issuer)}
 		}
 		if a.HasSubject {
 			la.Subject = &types.Subject{}
